@@ -98,10 +98,18 @@ def _fresh_axes():
     return plt, fig, ax
 
 
-def axes_data(ax):
+def axes_data(ax, style=False):
     out = {"title": ax.get_title(), "xlabel": ax.get_xlabel(), "ylabel": ax.get_ylabel(),
            "xlim": [float(x) for x in ax.get_xlim()], "ylim": [float(x) for x in ax.get_ylim()],
            "collections": [], "lines": [], "images": []}
+    if style:
+        # only for axes the library created itself (ax=None): how the drawing looks is then part of what the call did
+        import matplotlib.colors as mcolors
+        out["style"] = {
+            "collection_colors": [[mcolors.to_hex(c_) for c_ in np.atleast_2d(c.get_facecolor())[:1]] for c in ax.collections],
+            "axes_facecolor": mcolors.to_hex(ax.get_facecolor()),
+            "title_fontsize": float(ax.title.get_fontsize()),
+        }
     for c in ax.collections:
         off = getattr(c, "get_offsets", lambda: np.zeros((0, 2)))()
         out["collections"].append([type(c).__name__, str(c.get_label()), np.asarray(off, float).tolist()])
@@ -297,6 +305,25 @@ def build_plot_call(spec, fx, M, D):
             raise Skip("empty")
         arg = ds if (spec.get("as_list", True) or len(ds) > 1) else ds[0]
         opts = dict(spec.get("opts") or {})
+        if opts.get("colormap", "default") not in ("default", "ggplot", "bmh"):
+            raise InvalidCase("colormap")
+        if spec.get("ax") == "none":
+            # the caller has no figure open and lets the library create the axes (the documented default)
+            def call_none():
+                import matplotlib
+                matplotlib.use("Agg", force=False)
+                import matplotlib.pyplot as plt
+                plt.close("all")
+                with contextlib.redirect_stdout(io.StringIO()):
+                    V.plot_diagrams(arg, **opts)
+                fig = plt.gcf()
+                if len(fig.axes) != 1:
+                    data = {"axes_in_current_figure": len(fig.axes)}
+                else:
+                    data = axes_data(fig.axes[0], style=True)
+                plt.close("all")
+                return data
+            return call_none, [arg], None
         return with_axes(lambda ax: V.plot_diagrams(arg, ax=ax, **opts), [arg])
     if fn in ("bottleneck_matching", "wasserstein_matching"):
         a, b = np.asarray(D("a")), np.asarray(D("b"))
